@@ -24,7 +24,7 @@ Property theorems only; helper lemmas live in `EAO/Lemmas/Slp.lean`.
                          of the dispatch of the recombined points; it balances wherever those balance.
 * abstract two-stage lemmas over arbitrary feasible sets and value functions:
   `slp_le_wait_and_see`, `ev_le_slp`, `slp_eq_det_of_equal`; their instances for `makeSlp`:
-  `slp_le_wait_and_see_problem`, `slp_eq_det_of_equal_problem`.
+  `slp_le_wait_and_see_problem`, `ev_le_slp_problem` (with `slp_glue`), `slp_eq_det_of_equal_problem`.
 * `robust_bounds`, `robust_bounds_problem`, `robust_reported_value`.
 
 The numerical solver is outside the model; the statements are about feasible points and upper bounds of
@@ -49,6 +49,9 @@ instance (P : Problem) : Decidable (BoundsWF P) := inferInstanceAs (Decidable (_
 
 /-- cost vectors produced by `create_cost_samples` have one entry per variable -/
 def SamplesFit (P : Problem) (cs : List (List Rat)) : Prop := ∀ c ∈ cs, c.length = P.n
+
+instance (P : Problem) (cs : List (List Rat)) : Decidable (SamplesFit P cs) :=
+  inferInstanceAs (Decidable (∀ c ∈ cs, c.length = P.n))
 
 theorem slpMask_length (P : Problem) (F : List Nat) : (slpMask P F).length = P.n := by
   simp [slpMask]
@@ -555,13 +558,62 @@ theorem slp_eq_det_of_equal_problem (P : Problem) (F : List Nat) (cs : List (Lis
     (fun s hs x hx => by unfold scenValue; rw [hsc s hs]; exact hub x hx) z hz
   rwa [mean_const] at this
 
-/- TARGET (not proved): `ev_le_slp_problem` — the instance of `ev_le_slp` for `makeSlp`: given points `w s`
-   (`s = 0 … S`) feasible for `P` that agree on the present variables, the glued point
-   `z k = if k < n then w 0 k else w (q / n_f + 1) (the (q % n_f)-th future variable)`, `q = k - n`, satisfies
-   `z ∘ embed s = w s` on `[0, n)` and is therefore feasible for the SLP by `slp_structure`; missing: the inverse of
-   `maskRank` and the lemma that `FeasibleRelaxed` reads a point only below `n` (needs rows with columns `< n`).
-   The abstract statement `ev_le_slp` and `slp_structure` are proved; the gluing is what the implementation's
-   solution vector `(x, x_f^1 … x_f^S)` is by construction. -/
+/-- **slp_glue.**  Points `w 0 … w S` of the original problem, one per scenario, that agree on the present
+    variables glue to ONE point of the SLP (`slpGlue`: original variables from `w 0`, the copy block of sample `i`
+    from `w (i+1)`).  If every `w s` is feasible for `P` the glued point is feasible for the SLP, and — if the
+    samples share the costs of the non-straddling present variables — its SLP value is the mean of the scenario
+    values `scenValue P cs s (w s)`.  Needs the rows of `P` to mention columns `< n` only (so that `P` reads a point
+    only below `n`). -/
+theorem slp_glue (P : Problem) (F : List Nat) (cs : List (List Rat)) (Q : Problem)
+    (h : makeSlp P F cs = .ok Q) (hshare : SharePresentNS P F cs)
+    (hcols : ∀ r ∈ P.rows, ∀ p ∈ r.coeffs, p.1 < P.n)
+    (w : Nat → Vec) (hw : ∀ s, s ≤ cs.length → P.FeasibleRelaxed (w s))
+    (hagree : ∀ s, s ≤ cs.length → ∀ j, j < P.n → (slpMask P F).getD j false = false → w s j = w 0 j) :
+    Q.FeasibleRelaxed (slpGlue (slpMask P F) P.n w) ∧
+    Q.value (slpGlue (slpMask P F) P.n w) = mean cs.length (fun s => scenValue P cs s (w s)) := by
+  obtain ⟨⟨hm, hl, hu, hs⟩, _⟩ := makeSlp_eq P F cs Q h
+  have hrec : ∀ s, s ≤ cs.length → ∀ j, j < P.n →
+      slpGlue (slpMask P F) P.n w (slpEmbed (slpMask P F) P.n s j) = w s j :=
+    fun s hs' j hj => slpGlue_embed _ _ w s j hj (hagree s hs' j hj)
+  constructor
+  · rw [(slp_structure P F cs Q h _).1]
+    intro s hs'
+    exact (feasibleRelaxed_congr P hl hcols _ (w s) (hrec s hs')).mpr (hw s hs')
+  · rw [slp_value_mean P F cs Q h _ hshare]
+    apply mean_congr
+    intro s hs'
+    unfold scenValue
+    congr 1
+    apply costAt_congr
+    intro j hj
+    have hlen : (scenCost P.c cs s).length = P.n := by
+      cases s with
+      | zero => rfl
+      | succ i =>
+        have hi : i < cs.length := by omega
+        show (cs.getD i []).length = _
+        rw [List.getD_eq_getElem?_getD, List.getElem?_eq_getElem hi]
+        exact hs _ (List.getElem_mem hi)
+    rw [Nat.zero_add]
+    exact hrec s hs' j (by omega)
+
+/-- **ev_le_slp_problem** (the instance of `ev_le_slp` for `makeSlp`).  The expected value of fixing the present
+    to ANY common decision that admits recourse in every scenario is at most the SLP optimum: for points `w s`
+    (`s = 0 … S`) feasible for `P` that agree on the present variables there is a feasible point of the SLP
+    whose value is `mean_s scenValue_s (w s)`; hence that mean is at most every upper bound `U` of the SLP value
+    on its feasible points.  (With `w s` = the optimum of scenario `s` after fixing the present to the present part
+    of any single-scenario optimum this is `EEV_k ≤ V_slp`.) -/
+theorem ev_le_slp_problem (P : Problem) (F : List Nat) (cs : List (List Rat)) (Q : Problem)
+    (h : makeSlp P F cs = .ok Q) (hshare : SharePresentNS P F cs)
+    (hcols : ∀ r ∈ P.rows, ∀ p ∈ r.coeffs, p.1 < P.n)
+    (w : Nat → Vec) (hw : ∀ s, s ≤ cs.length → P.FeasibleRelaxed (w s))
+    (hagree : ∀ s, s ≤ cs.length → ∀ j, j < P.n → (slpMask P F).getD j false = false → w s j = w 0 j) :
+    (∃ z, Q.FeasibleRelaxed z ∧ Q.value z = mean cs.length (fun s => scenValue P cs s (w s))) ∧
+    ∀ U, (∀ z, Q.FeasibleRelaxed z → Q.value z ≤ U) → mean cs.length (fun s => scenValue P cs s (w s)) ≤ U := by
+  have hg := slp_glue P F cs Q h hshare hcols w hw hagree
+  refine ⟨⟨_, hg.1, hg.2⟩, fun U hU => ?_⟩
+  rw [← hg.2]
+  exact hU _ hg.1
 
 /-! ## robust target -/
 
@@ -699,6 +751,33 @@ example : (match makeSlp exS [1] [[1, 5, 4], [1, 8, 6]] with | .ok Q => Q.value 
   decide +kernel
 example : (List.range 3).map (fun s => - costAt (scenCost exS.c [[1, 5, 4], [1, 8, 6]] s) 0
     (fun j => zS (slpEmbed [false, false, true] 3 s j))) = [-6, -14, -27] := by decide +kernel
+/-- `ev_le_slp_problem` on `exS`: scenario points `(1,1,1)`, `(1,1,2)`, `(1,1,3)` are feasible for `exS` and agree on
+    the present variables 0 and 1; all hypotheses hold, so the mean −47/3 of their scenario values is a lower
+    bound of every upper bound of the SLP value -/
+private def csS : List (List Rat) := [[1, 5, 4], [1, 8, 6]]
+private def wS (s : Nat) : Vec := fun j => [1, 1, 1 + (s : Rat)].getD j 0
+private theorem exS_share : SharePresentNS exS [1] csS := by
+  intro i hi x
+  have hmask : slpMask exS [1] = [false, false, true] := by decide
+  have hstr : slpStraddle exS [1] = [false, true, false] := by decide
+  rw [hmask, hstr]
+  have hi' : i < 2 := hi
+  match i, hi' with
+  | 0, _ => simp [nsValue, nsMask, selCost, csS, exS]
+  | 1, _ => simp [nsValue, nsMask, selCost, csS, exS]
+example : ∀ r ∈ exS.rows, ∀ p ∈ r.coeffs, p.1 < exS.n := by decide
+example : ∀ s, s ≤ csS.length → exS.FeasibleRelaxed (wS s) := by decide +kernel
+example : ∀ s, s ≤ csS.length → ∀ j, j < exS.n → (slpMask exS [1]).getD j false = false → wS s j = wS 0 j := by
+  decide +kernel
+example : mean csS.length (fun s => scenValue exS csS s (wS s)) = -47/3 := by decide +kernel
+example : ∃ Q, makeSlp exS [1] csS = .ok Q ∧
+    (∃ z, Q.FeasibleRelaxed z ∧ Q.value z = -47/3) ∧
+    ∀ U, (∀ z, Q.FeasibleRelaxed z → Q.value z ≤ U) → (-47/3 : Rat) ≤ U := by
+  obtain ⟨Q, hQ⟩ := (makeSlp_ok_iff exS [1] csS).mpr ⟨by decide, by decide, by decide, by decide⟩
+  have hm : mean csS.length (fun s => scenValue exS csS s (wS s)) = -47/3 := by decide +kernel
+  have := ev_le_slp_problem exS [1] csS Q hQ exS_share (by decide) wS (by decide +kernel) (by decide +kernel)
+  rw [hm] at this
+  exact ⟨Q, hQ, this⟩
 example : robustObjective [[1, 2, 3], [3, 0, 0]] (fun j => [1, 1, 0].getD j 0) = some (-3) := by decide +kernel
 end Example
 
